@@ -60,6 +60,23 @@ def run(prog, rep):
     ok = len(closes) == 1 and not fn.loops()
     rep.ob("C19.4", fn, "close", ok, "one close(), no retry loop" if ok else "%d close() call(s), loops: %d" % (len(closes), len(fn.loops())), fn.loc[0])
     rep.floor("C19.4", 1)
+    # C19.5: what the re-issued connect() reports.  POSIX: a connect() interrupted by a signal continues asynchronously and a second
+    # connect() on that socket fails with EALREADY - so "retried on EINTR" only ends well if EALREADY is classified like EINPROGRESS
+    rep.rule("C19.5", "the retried connect: EALREADY (the answer to a connect re-issued after EINTR) is classified IN_PROGRESS by the errno table, so the retry ends in "
+                      "the wait for writability and not in a failure")
+    from rules.C09 import switch_table
+    pe = prog.unit("perror.c")
+    pfn = pe.fn("p_error_get_io_from_system")
+    table, default = switch_table(pfn)
+    enum = dict(pe.enums.get("PErrorIO_") or [])
+    want = enum.get("P_ERROR_IO_IN_PROGRESS")
+    if want is None:
+        raise AnalysisBroken("PErrorIO enumerators not found")
+    got = table.get(114, default)
+    rep.ob("C19.5", pfn, "errno:EALREADY", got == want, "EALREADY maps to P_ERROR_IO_IN_PROGRESS: the connect re-issued after EINTR goes on to wait for the connection" if got == want else
+           "EALREADY (114) maps to %s, not to P_ERROR_IO_IN_PROGRESS (%s): a blocking connect interrupted by a handled signal fails on its retry while the connection is still being established"
+           % (got, want), pfn.loc[0])
+    rep.floor("C19.5", 1)
     sleeps = [s for s in sites(prog, names=set(SLEEPS))]
     if not sleeps:
         raise AnalysisBroken("no sleep primitive call site found (p_uthread_sleep anchor changed)")
